@@ -402,7 +402,166 @@ def hashset_insert(it, st, fn, args, dest, target):
     it.ret_scalar(st, dest, target, 0 if present else 1, 1)
 
 
+# ------------------------------------------------------------------------------------------
+# core::fmt builders (non-generic, no MIR): the formatting itself is not the subject; what matters is that the
+# members' Debug impls (which may try-lock) are called.  Output is discarded.
+# ------------------------------------------------------------------------------------------
+def _field_off_by_name(it, tid, name):
+    t = it.prog.types[tid]
+    for i, f in enumerate(t["variants"][0]["fields"]):
+        if f["name"] == name:
+            return it.prog.field_offset(tid, i), f["ty"]
+    raise Unsupported("no field %s in %s" % (name, t.get("name")))
+
+
+def _fmt_ptr_of_builder(it, st, arg):
+    """the &mut Formatter stored in a DebugStruct / DebugTuple / DebugList / DebugSet / DebugInner"""
+    blob, tid = arg
+    p = it.scalar_of(st, blob, 8)
+    pt = it.prog.pointee(tid)
+    off = 0
+    while True:
+        t = it.prog.types[pt]
+        names = [f["name"] for f in t["variants"][0]["fields"]]
+        if "fmt" in names:
+            o, ft = _field_off_by_name(it, pt, "fmt")
+            return st.read_scalar(p.alloc, p.off + off + o, 8)
+        if "inner" in names:
+            o, ft = _field_off_by_name(it, pt, "inner")
+            off += o
+            pt = ft
+            continue
+        raise Unsupported("formatter builder %s" % t.get("name"))
+
+
+def _dyn_debug_call(it, st, fat_blob, fmt_ptr):
+    p = vt = None
+    for (r, s_, v) in fat_blob:
+        if r == 0:
+            p = v
+        elif r == 8:
+            vt = v
+    if not isinstance(vt, VT):
+        raise Unsupported("dyn Debug without vtable")
+    e = it.vtable_entry(vt, 3)
+    if not isinstance(e, int):
+        raise Unsupported("dyn Debug vtable entry %r" % (e,))
+    return (e, [([(0, 8, p)], None), ([(0, 8, fmt_ptr)], None)])
+
+
+OK_RESULT = [(0, 1, 0)]
+
+
+def fmt_builder_new(it, st, fn, args, dest, target):
+    """Formatter::debug_struct / debug_tuple / debug_list / debug_set / debug_map"""
+    fmt_ptr = it.scalar_of(st, args[0][0], 8)
+    size = it.prog.size(dest.ty)
+    blob = []
+    o = 0
+    while o + 8 <= size:
+        blob.append((o, 8, 0))
+        o += 8
+    while o < size:
+        blob.append((o, 1, 0))
+        o += 1
+    it.write_place_blob(st, dest, blob)
+    # store the formatter pointer
+    pt = dest.ty
+    off = 0
+    while True:
+        t = it.prog.types[pt]
+        names = [f["name"] for f in t["variants"][0]["fields"]]
+        if "fmt" in names:
+            fo, _ = _field_off_by_name(it, pt, "fmt")
+            st.write_scalar(dest.alloc, dest.off + off + fo, 8, fmt_ptr)
+            break
+        fo, ft = _field_off_by_name(it, pt, "inner")
+        off += fo
+        pt = ft
+    it.goto(st, target)
+
+
+def fmt_builder_field(it, st, fn, args, dest, target):
+    """DebugStruct::field(self, name, value) / DebugTuple::field(self, value) / DebugList::entry(self, value) -> self"""
+    fmt_ptr = _fmt_ptr_of_builder(it, st, args[0])
+    value = args[-1][0]
+    call = _dyn_debug_call(it, st, value, fmt_ptr)
+    it.run_script(st, [call], list(args[0][0]), dest, target)
+
+
+def fmt_builder_finish(it, st, fn, args, dest, target):
+    it.ret_blob(st, dest, target, OK_RESULT)
+
+
+def fmt_fields_finish(it, st, fn, args, dest, target):
+    """Formatter::debug_{struct,tuple}_field{N}_finish and _fields_finish: call every &dyn Debug argument"""
+    fmt_ptr = it.scalar_of(st, args[0][0], 8)
+    calls = []
+    for (blob, tid) in args[1:]:
+        if tid is None or not it.prog.is_fat_ptr(tid):
+            continue
+        pt = it.prog.pointee(tid)
+        k = it.prog.kind(pt)
+        if k == "dyn":
+            calls.append(_dyn_debug_call(it, st, blob, fmt_ptr))
+        elif k == "slice":
+            et = it.prog.types[pt]["elem"]
+            if it.prog.is_fat_ptr(et) and it.prog.kind(it.prog.pointee(et)) == "dyn":
+                base = n = None
+                for (r, s_, v) in blob:
+                    if r == 0:
+                        base = v
+                    elif r == 8:
+                        n = v
+                n = it.concretize(st, n)
+                for i in range(n):
+                    calls.append(_dyn_debug_call(it, st, st.read_blob(base.alloc, base.off + 16 * i, 16), fmt_ptr))
+    it.run_script(st, calls, OK_RESULT, dest, target)
+
+
+def fmt_ok(it, st, fn, args, dest, target):
+    it.ret_blob(st, dest, target, OK_RESULT)
+
+
+def verif_formatter(it, st, fn, args, dest, target):
+    size = 64
+    for t in it.prog.types:
+        if t.get("def_name") in ("std::fmt::Formatter", "core::fmt::Formatter") and t.get("size"):
+            size = t["size"]
+            break
+    aid = st.new_alloc(size, 8, "heap", "formatter")
+    a = st.mem[aid]
+    o = 0
+    while o + 8 <= size:
+        a.cells[o] = (8, 0)
+        o += 8
+    it.ret_scalar(st, dest, target, Ptr(aid, 0), 8)
+
+
 def register(it):
+    sc = it.summaries_contains
+    sc.append(("std::fmt::Formatter::<'_>::debug_struct_field", fmt_fields_finish))
+    sc.append(("std::fmt::Formatter::<'_>::debug_tuple_field", fmt_fields_finish))
+    for nm in ("debug_struct", "debug_tuple", "debug_list", "debug_set", "debug_map"):
+        sc.append(("std::fmt::Formatter::<'_>::" + nm, fmt_builder_new))
+    sc.append(("std::fmt::DebugStruct::<'_, '_>::field", fmt_builder_field))
+    sc.append(("std::fmt::DebugTuple::<'_, '_>::field", fmt_builder_field))
+    sc.append(("std::fmt::DebugList::<'_, '_>::entry", fmt_builder_field))
+    sc.append(("std::fmt::DebugSet::<'_, '_>::entry", fmt_builder_field))
+    sc.append(("std::fmt::DebugInner::<'_, '_>::entry", fmt_builder_field))
+    sc.append(("::finish_non_exhaustive", fmt_builder_finish))
+    sc.append(("std::fmt::DebugStruct::<'_, '_>::finish", fmt_builder_finish))
+    sc.append(("std::fmt::DebugTuple::<'_, '_>::finish", fmt_builder_finish))
+    sc.append(("std::fmt::DebugList::<'_, '_>::finish", fmt_builder_finish))
+    sc.append(("std::fmt::DebugSet::<'_, '_>::finish", fmt_builder_finish))
+    sc.append(("std::fmt::Formatter::<'_>::write_str", fmt_ok))
+    sc.append(("std::fmt::Formatter::<'_>::pad", fmt_ok))
+    sc.append(("std::fmt::Formatter::<'_>::write_fmt", fmt_ok))
+    sc.append(("core::fmt::pointer_fmt_inner", fmt_ok))
+    sc.append(("core::fmt::num::", fmt_ok))
+    sc.append((" as std::fmt::Debug>::fmt", fmt_ok))
+    sc.append((" as std::fmt::Display>::fmt", fmt_ok))
+    it.summaries["happylock::verif_harness::env::eng::verif_formatter"] = verif_formatter
     it.summaries_contains.append(("drop_in_place::<std::collections::HashSet<", noop))
     it.summaries_contains.append(("std::collections::HashSet::<*const ()>::with_capacity", hashset_new))
     it.summaries_contains.append(("std::collections::HashSet::<*const ()>::insert", hashset_insert))
